@@ -1,7 +1,7 @@
 # Control.tla <-> internal/agent control requests on the controlled mesh (C39)
 import os, json
 import vf
-from _ctlreg import par, trace_actions
+from _ctlreg import par, trace_actions, path_cover as big_path_cover
 
 PROP_INVS = "DeliveredToIssuerFromTarget NoResponseLost QuietComplete"
 ALL_INVS = "TypeOK " + PROP_INVS + " TablesDisjoint QuietClean"
@@ -53,7 +53,8 @@ def model(ctx):
 def replay(ctx, mdl, shards=None, stress=None):
     """Replay the edge cover of the ideal relation and the deviations' seed scenarios on real agents; concurrently
     check the larger instance (thorough) and run the free-running stress test."""
-    paths, nnodes, nedges = vf.path_cover(mdl["ideal"].edges)
+    cover = vf.path_cover if len(mdl["ideal"].edges) <= 20000 else big_path_cover
+    paths, nnodes, nedges = cover(mdl["ideal"].edges)
     ctx.rng.shuffle(paths)
     if os.environ.get("VERIF_CORRUPT"):
         # binding self-test: corrupt ONE expected state (the answering agent of one delivered result); the run must
